@@ -1,6 +1,55 @@
+import Model.Writer
 import Driver.Util
 namespace Driver.C07
-/-- placeholder: replaced when the property's model is built -/
-def step (_ : Unit) (_ : List String) : Unit × String := ((), "unimplemented")
+open Util Writer
+
 def init : Unit := ()
+
+def parseTriple (s : String) : Option Chunk :=
+  match s.splitOn ":" with
+  | [a, b, c] => do
+    let id ← a.toNat?
+    let len ← b.toNat?
+    let n ← c.toNat?
+    pure ⟨id, len, n⟩
+  | _ => none
+
+def parseList {α} (f : String → Option α) (s : String) : Option (List α) :=
+  if s == "-" then some [] else (s.splitOn ";").mapM f
+
+def parseOutcome (s : String) : Option (Nat × String) :=
+  match s.splitOn ":" with
+  | [a, b] => do let id ← a.toNat?; pure (id, b)
+  | _ => none
+
+/-- monitor = the clauses of the invariant `Writer.Inv` at quiescence (every writer has returned):
+    prefix bound, each request at most once, success ⇒ whole frame present, cancelled-before-start ⇒
+    no bytes, torn frame ⇒ connection closed. (That only the last piece may be torn is NOT checked:
+    the unchanged code violates it, known finding KF-C07-1.) -/
+def monitor (closed : Bool) (chunks : List Chunk) (outs : List (Nat × String)) : String :=
+  if !(chunks.all fun c => decide (c.n ≤ c.len ∧ 0 < c.n)) then "reject:bound"
+  else if !(decide (chunks.map (·.id)).Nodup) then "reject:frame-twice"
+  else if !(outs.all fun (w, o) => o != "ok" || chunks.any fun c => c.id == w && c.n == c.len) then "reject:success-without-whole-frame"
+  else if !(outs.all fun (w, o) => o != "cancel" || chunks.all fun c => c.id != w) then "reject:cancelled-left-bytes"
+  else if !(chunks.all fun c => c.n == c.len || closed) then "reject:torn-but-open"
+  else "accept"
+
+def showAttr (rs : List (Nat × Bool)) : String :=
+  " ".intercalate (rs.map fun (n, ok) => toString n ++ ":" ++ (if ok then "1" else "0"))
+
+def step (_ : Unit) (ws : List String) : Unit × String :=
+  ((), match ws with
+  | "attr" :: lim :: ls => match lim.toNat?, ls.mapM String.toNat? with
+      | some n, some lens => showAttr (attrib lens n)
+      | _, _ => "bad-op"
+  | ["trace", cl, ch, ou] =>
+      match parseList parseTriple ch, parseList parseOutcome ou with
+      | some chunks, some outs => monitor (cl == "closed=1") chunks outs
+      | _, _ => "bad-op"
+  | ["kf-d13"] =>
+      match run (fun _ => 10) Writer.init C07.cexScheduleD with
+      | some s => if wholeFrames s.wire then "clean" else "torn-then-complete"
+      | none => "stuck"
+  | _ => "bad-op")
+
 end Driver.C07
